@@ -103,7 +103,7 @@ inline bool is_identity_field(const std::string & p) {
     return p == "signature" || p == "headerSize" || p == "headerVersion" || p == "objectSize" || p == "objectType";
 }
 
-enum Pattern { P_UNIQUE = 0, P_ZERO = 1, P_FF = 2, P_8070 = 3, P_COUNT = 4 };
+enum Pattern { P_UNIQUE = 0, P_ZERO = 1, P_FF = 2, P_8070 = 3, P_SPARSE = 4, P_COUNT = 5 };
 
 struct FillV : VisitorBase<FillV> {
     int pattern = P_UNIQUE;
@@ -123,6 +123,7 @@ struct FillV : VisitorBase<FillV> {
         case P_UNIQUE: for (size_t i = 0; i < n; i++) d[i] = next(); break;
         case P_ZERO: memset(d, 0, n); break;
         case P_FF: memset(d, 0xff, n); break;
+        case P_SPARSE: for (size_t i = 0; i < n; i++) d[i] = next(); break;
         case P_8070:
             toggle = !toggle;
             memset(d, toggle ? 0xff : 0x00, n);
@@ -132,6 +133,15 @@ struct FillV : VisitorBase<FillV> {
     }
     void scalar(const std::string & p, uint8_t * d, size_t n, bool is_bool, bool) {
         if (is_identity_field(p)) return;
+        if (pattern == P_SPARSE) {
+            /* the way an application often uses the API: only some fields are set, fixed-size arrays only at the front;
+             * everything else keeps the value the constructor gave it */
+            toggle = !toggle;
+            if (is_bool) return;
+            if (n > 8) { for (size_t i = 0; i < 2 && i < n; i++) d[i] = next(); return; }
+            if (toggle) for (size_t i = 0; i < n; i++) d[i] = next();
+            return;
+        }
         if (is_bool) { *d = (pattern == P_ZERO) ? 0 : (pattern == P_FF ? 1 : (next() & 1)); return; }
         fill(d, n);
     }
